@@ -188,7 +188,13 @@ class Run:
                 # in a forked child: confirming a witness must not touch this process's copy of the code under test
                 from . import explore
                 try:
-                    again = explore._fork_map(lambda r, c=v.case: [(x.kind, x.case, x.detail) for x in replay_fn(c)], 1)[0]
+                    def confirm(r, c=v.case, k=v.kind):
+                        try:
+                            return [(x.kind, x.case, x.detail) for x in explore.timed(replay_fn, c, explore.CASE_TIMEOUT * 2)]
+                        except explore.CaseTimeout:
+                            # the witness makes the tool hang: that is the failure repeating, not a harness problem
+                            return [(k, c, {'replay': 'did not come back within %d s' % (explore.CASE_TIMEOUT * 2)})]
+                    again = explore._fork_map(confirm, 1)[0]
                     again = [Violation(*t) for t in again]
                 except Exception as ex:  # replay itself crashed
                     again = [Violation(v.kind, v.case, {'exception': repr(ex)[:500]})]
